@@ -170,7 +170,9 @@ func (g *gen) ref(c cand, ctx string) {
 		g.feat("xpkg")
 		// a bare reference to an imported name: where the use-package form
 		// stands decides what a per-file analysis can know about it
-		if g.cur.impFile[c.b.name] == g.fileIdx {
+		if g.cur.impConflict[c.b.name] {
+			ctx = "imported-conflict"
+		} else if g.cur.impFile[c.b.name] == g.fileIdx {
 			ctx = "imported"
 		} else {
 			g.feat("import-from-other-file")
